@@ -69,7 +69,7 @@ def texts():
     out = ["", "a", "abc", "123", "-5", "1.5", "0", " 12 ", "1_000", "0x10", "True", "None", "é", "ÿ", "\x80", "\x7f", "\xa0", "Ā", "日本語", "€",
            "\U0001F600", "a\U00010000b", "\x00", "\x01", "\x1a", "\x1f", "\n", "\r", "\r\n", "a\nb", "tab\there", "\\", "\\n", "\\u0041", "\\\\", "a\\",
            "'", '"', "'\"", "it's", 'say "hi"', "'''", "\\'", "print('x')", "x" * 255, "x" * 256, "x" * 257, "é" * 128, "x" * 70000,
-           "\ud800" if False else "�", " ", "\x85", "١٢٣", "１２３", "1e5", "inf", "nan", "+7", "٣"]
+           "\ud800" if False else "�", " ", "\x85", "١٢٣", "１２３", "1e5", "inf", "nan", "\udcc3\udca9", "caf\udce9", "\udc80", "na\udcc3\udcafve", "x\udcff", "+7", "٣"]
     for _ in range(10):
         out.append("".join(chr(rnd.choice([rnd.randrange(0, 128), rnd.randrange(128, 256), rnd.randrange(256, 0xD800), rnd.randrange(0x10000, 0x10FFFF)]))
                            for _ in range(rnd.randrange(1, 8))))
